@@ -575,7 +575,11 @@ def withEnv (o : Opts) (f : FMeta) (t : Ty) (ev : Str) : R Val :=
     | .ptr (.prim p) =>
       match litInRange f.range ev with
       | .error e => .error e
-      | .ok _ => (fillPrim o.f32Pinned p (.num ev)).map .ptr
+      | .ok _ =>
+        -- pinned code (before fixes/C17-float32-single-rounding.patch): the overflow check dereferences the
+        -- still-nil pointer field: `reflect.Value.Type` on the zero Value panics
+        if o.f32Pinned ∧ p = .float 32 ∧ (parseDec? ev).isSome then .error .panic
+        else (fillPrim o.f32Pinned p (.num ev)).map .ptr
     | _ => .error .err
 
 /-- `processNamedFieldWithoutValue` with a `default=`: converted from its text, neither `options` nor `range` apply. -/
